@@ -190,3 +190,10 @@ def c20_root_types_not_compared() -> bool:
     type or dropping the mutation root (its object type staying reachable) yields no change at all although operations stop validating.
     A repair needs new public SchemaChange classes for root types - an API decision, recorded rather than repaired."""
     return ENABLED
+
+
+def c12_bare_item_for_list_default() -> bool:
+    """KF C12-bare-item-for-list-default: a code-built default of a list type given as a bare item (`[Int]` with default 5) is written `= 5`;
+    the rebuilt schema holds the coerced list and prints `= [5]`.  tests/test_utilities/test_ast_node_from_value.py pins the bare form
+    (test_ast_node_from_value_with_list_types: 'FOO' for [String] -> StringValue), so the literal cannot be changed without editing a test."""
+    return ENABLED
